@@ -553,6 +553,7 @@ func AnalyzeAccessors(p *load.Program, r *Roles, depth int) *UnitResult {
 			col.Check("C15.R1", "Result."+name+":may-panic", len(issues) == 0, p.Position(fn.Pos()), "can panic: "+strings.Join(issues, "; "), nil)
 		}
 	}
+	checkResultCtors(p, r, res, "C15.R8", "C15.ENGINE")
 	return res
 }
 
@@ -970,4 +971,52 @@ func (m *copyLoopMon) OnEvent(c *eng.Ctx, ms eng.MState, ev *eng.Event) eng.MSta
 		}
 	}
 	return s
+}
+
+// checkResultCtors: the Result constructors are faithful. NewResult(v) and R(v)
+// hold exactly the argument (whatever its dynamic type - a payload is never
+// flattened, unwrapped or converted on the way in) and no error; NewErrorResult(e)
+// holds exactly e and a nil value. The accessors, Bind and the adapters are decided
+// on the value field; this rule ties that field to what the caller passed.
+func checkResultCtors(p *load.Program, r *Roles, res *UnitResult, rule, engineRule string) {
+	col := res.Col
+	vi, ei, ok := resultFields(r)
+	if !ok {
+		col.Unproven(rule, "Result:constructors", p.Position(0), "value/error fields of Result not identified", nil)
+		return
+	}
+	field := func(t *eng.Term, i int) *eng.Term {
+		if t.K == eng.KStruct && i < len(t.A) {
+			return t.A[i]
+		}
+		return eng.Field(t, i)
+	}
+	for _, name := range []string{"NewResult", "R", "NewErrorResult"} {
+		fn := p.Func(name)
+		con := name + ":constructor"
+		if fn == nil || len(fn.Params) != 1 {
+			col.Unproven(rule, con, p.Position(0), "constructor "+name+" not found with one parameter", nil)
+			continue
+		}
+		arg := eng.Param(0, fn.Params[0].Name())
+		paths := exploreAdapter(p, r, res, fn, Mode{}, nil, nil, nil, engineRule)
+		if len(paths) == 0 {
+			col.Unproven(rule, con, p.Position(fn.Pos()), "no return path explored", nil)
+		}
+		for _, pth := range paths {
+			if pth.panic || len(pth.rets) != 1 {
+				col.CheckAt(rule, con, false, pth.pos, name+" can panic or has an unexpected result list", nil)
+				continue
+			}
+			v, e := field(pth.rets[0], vi), field(pth.rets[0], ei)
+			isNil := func(t *eng.Term) bool {
+				return t.K == eng.KNil || t.K == eng.KZero || pth.e.Eval(pth.st.Facts(), eng.Bin("==", t, eng.Nil())) == eng.TriTrue
+			}
+			if name == "NewErrorResult" {
+				col.CheckAt(rule, con, e == arg && isNil(v), pth.pos, "NewErrorResult(err) must hold exactly err and a nil value, got value "+v.Pretty()+", error "+e.Pretty(), nil)
+			} else {
+				col.CheckAt(rule, con, v == arg && isNil(e), pth.pos, name+"(v) must hold exactly v (of whatever type) and no error, got value "+v.Pretty()+", error "+e.Pretty(), nil)
+			}
+		}
+	}
 }
